@@ -5,12 +5,13 @@ set -e
 P=$(readlink -f "$1"); MSG="$2"
 cd /repo
 git diff --quiet || { echo "/repo has uncommitted changes"; exit 1; }
-/venv/bin/python /verif/tools/refbuilds.py /repo > /tmp/rb_before.txt 2>/dev/null
+T0=$(date +%s); /venv/bin/python /verif/tools/refbuilds.py /repo > /tmp/rb_before.txt 2>/dev/null; T1=$(date +%s)
 git apply --check "$P" && git apply "$P"
 R=$(/venv/bin/python -m pytest -q -p no:cacheprovider --timeout=900 --continue-on-collection-errors 2>&1 | tail -1)
 echo "pytest: $R"
 case "$R" in *"66 passed"*) ;; *) echo "baseline broken, reverting"; git checkout -- .; exit 1;; esac
-/venv/bin/python /verif/tools/refbuilds.py /repo > /tmp/rb_after.txt 2>/dev/null
+T2=$(date +%s); /venv/bin/python /verif/tools/refbuilds.py /repo > /tmp/rb_after.txt 2>/dev/null; T3=$(date +%s)
+echo "reference builds compile time: before $((T1-T0))s after $((T3-T2))s"
 echo "reference builds changed: $(diff /tmp/rb_before.txt /tmp/rb_after.txt | grep -c '^>')"
 diff /tmp/rb_before.txt /tmp/rb_after.txt | grep '^>' | head -5 || true
 git add -A && git commit -qm "$MSG" && git log --oneline | head -1
